@@ -208,10 +208,16 @@ def _oracle_verify(v, fs, top_name, path, last_mtime, first_only):
 # ---------------------------------------------------------------------------------------
 # running the real loader on a model
 
+def world(c):
+    """the world a scenario context runs in: its model, or (stage-2 replay / validation)
+    the same tree materialised on the real filesystem"""
+    return getattr(c, 'world', None) or c.fs
+
+
 def run_verify(fs, top='Manifest', path='', last_mtime=None, fail_handler=None,
                allow_xdev=True):
-    """Real ManifestRecursiveLoader(...).assert_directory_verifies on the model.
-    Returns a short outcome string."""
+    """Real ManifestRecursiveLoader(...).assert_directory_verifies on the model (or on a
+    RealWorld).  Returns a short outcome string."""
     from gemato.exceptions import (ManifestMismatch, ManifestIncompatibleEntry,
                                    ManifestSyntaxError, ManifestCrossDevice,
                                    ManifestSymlinkLoop)
@@ -222,7 +228,8 @@ def run_verify(fs, top='Manifest', path='', last_mtime=None, fail_handler=None,
         kw['fail_handler'] = fail_handler
     with fs.installed():
         try:
-            m = ManifestRecursiveLoader(posixpath.join(ROOT, top), verify_openpgp=False,
+            m = ManifestRecursiveLoader(posixpath.join(fs.root_path, top),
+                                        verify_openpgp=False,
                                         allow_xdev=allow_xdev)
             ret = m.assert_directory_verifies(path, last_mtime=last_mtime, **kw)
             if ret is True:
